@@ -77,7 +77,7 @@ DOMAIN_TEXT = ["plain", "with space", "ünïcödé-θ", "a/b", "MiXeD Case", "x"
 
 def domain_metadata(r, fmt):
     out = {}
-    keys = ["user", "date", "lab", "comment", "project", "machine", "activation_temperature", "note", "Ключ", "iso_ref"]
+    keys = ["user", "date", "lab", "comment", "project", "machine", "activation_temperature", "note", "Ключ", "iso_ref", "data_source", "model_from", "branch_note"]
     if fmt == "aif":
         keys.remove("Ключ")  # CIF data names are restricted to printable ASCII
     for k in r.sample(keys, r.randint(0, 6)):
